@@ -189,6 +189,10 @@ func renderStmt(sb *strings.Builder, s *Stmt, ind int) {
 		fmt.Fprintf(sb, "%sif %s isnt 0\n%s\t{\n", tab, s.W, tab)
 		renderBody(sb, s.B, ind+1)
 		fmt.Fprintf(sb, "%s\t}\n", tab)
+	case "rep":
+		fmt.Fprintf(sb, "%sfor %s in ..%d\n%s\t{\n", tab, s.V, s.C, tab)
+		renderBody(sb, s.B, ind+1)
+		fmt.Fprintf(sb, "%s\t}\n", tab)
 	case "obs":
 		fmt.Fprintf(sb, "%sreturn Object(%s)\n", tab, strings.Join(s.Vs, ", "))
 	default:
@@ -552,9 +556,16 @@ func (g *gen) stmt(si *scopeInfo, depth int, top bool) Stmt {
 			}
 		}
 		return s
-	case r < 97 && depth < 3:
+	case r < 96 && depth < 3:
 		s := Stmt{K: "ifnz", W: g.readable(si)}
 		s.B = g.body(si.clone(), 1+g.rnd.Intn(2), depth+1, top)
+		return s
+	case r < 99 && depth < 3:
+		s := Stmt{K: "rep", V: g.pick(intNames), C: g.rnd.Intn(3)}
+		inner := si.clone()
+		inner.ints[s.V] = true
+		s.B = g.body(inner, 1+g.rnd.Intn(3), depth+1, top)
+		si.ints[s.V] = true
 		return s
 	default:
 		v := g.pick(intNames)
